@@ -19,7 +19,7 @@ impl Prop for C02 {
     }
     fn runs(&self, tier: Tier) -> u64 {
         match tier {
-            Tier::Quick => 60_000,
+            Tier::Quick => 48_000,
             Tier::Thorough => 1_500_000,
         }
     }
@@ -88,6 +88,29 @@ impl Prop for C02 {
         o.nontrivial = !st.trace.outs.is_empty();
         if let Some(e) = &st.tick_err {
             o.set_fail("C02:tick-returned-error", format!("tick_ms/handle_input_event returned Err although output is simulated: {e}"), vec![]);
+        }
+        // one run in twelve is repeated on the real processing-loop thread (executor B) under seeded
+        // interleavings, step costs and 2-40 ms stalls: the loop must not panic ("processing loop
+        // encountered error"), deadlock or spin, and must exit when its channel closes
+        if !o.failed() && case.seed % 12 == 0 && case.ops.len() <= 400 && !case.ops.iter().any(|op| matches!(op, Op::ClockJump(_) | Op::TapEvt(_))) {
+            use crate::exec_b::*;
+            // bound the virtual duration: long gaps are capped (the stepper run above keeps them)
+            let ops_b: Vec<Op> = case.ops.iter().map(|op| if let Op::Gap(n) = op { Op::Gap((*n).min(3_000)) } else { op.clone() }).collect();
+            let sim = kanata_verif_rt::SimCfg { seed: case.seed, cost_max_ns: 300_000, switch_permille: 250, stall_permille: 20, stall_min_ns: 2_000_000, stall_max_ns: 40_000_000, sleep_overshoot_max_ns: 400_000, max_steps: 30_000_000, ..Default::default() };
+            match run_b(&case.cfg, &case.files, &ops_b, &BOpts { sim, tcp_task: true, phase_us: 0 }) {
+                Ok(b) => {
+                    o.count("loop.runs-on-the-real-loop-thread", 1);
+                    o.count("loop.scheduling-points", b.report.steps);
+                    o.count("loop.stalls-injected", b.report.stalls);
+                    if !b.report.panics.is_empty() {
+                        o.set_fail("C02:processing-loop-panicked", format!("{:?}", b.report.panics), vec![]);
+                    } else if b.report.deadlock || b.report.leaked > 0 || b.report.overrun {
+                        o.set_fail("C02:processing-loop-did-not-terminate", format!("deadlock={} leaked tasks={} step overrun={}", b.report.deadlock, b.report.leaked, b.report.overrun), vec![]);
+                    }
+                }
+                Err(e) if e.contains("simulation aborted") => o.set_fail("C02:processing-loop-panicked", e, vec![]),
+                Err(_) => {}
+            }
         }
         if want_sample {
             o.sample = Some(sample_json(case, &st.trace.outs, json!({"ticks": st.trace.ticks, "max_queue": st.probes.max_queue, "max_states": st.probes.max_states})));
